@@ -114,19 +114,79 @@ impl Property for C02 {
         };
         sc.params.insert("search_step".into(), s as i64);
         sc.params.insert("announce".into(), announce as i64);
+        // back-to-back searches on the same node: the next one starts 0 ms .. 31 s after the previous
+        // one ended, for another info-hash (every contact was queried moments ago)
+        if rng.chance(1, 3) {
+            let mut prev = s;
+            for k in 0..rng.range(1, 2) {
+                let ih2 = if rng.chance(1, 2) { rng.id20() } else { id_with_lcp(&ih, rng.range(0, 30) as usize, &mut rng) };
+                for (i, st) in sc.world.stubs.iter_mut().enumerate() {
+                    if i % 3 == k as usize {
+                        peer_no += 1;
+                        st.peers.push((ih2, vec![addr(v6, 4, peer_no, 9000)]));
+                    }
+                }
+                let gap = *rng.pick(&[0u64, 1, 500, 5_000, 29_000, 31_000]);
+                let f = sc.after(prev, gap, Op::Search { node: 0, ih: ih2, announce: rng.chance(3, 4) });
+                sc.params.insert(format!("search_step{}", k + 2), f as i64);
+                prev = f;
+            }
+        }
         sc.end_ms = 900_000;
         sc
     }
 
     fn check(&self, sc: &Scenario, run: &RunLog) -> Verdict {
         let mut v = Verdict::default();
+        let mut steps = vec![sc.param("search_step") as usize];
+        for k in 2..4 {
+            if let Some(x) = sc.params.get(&format!("search_step{k}")) {
+                steps.push(*x as usize);
+            }
+        }
+        if steps.len() > 1 {
+            v.hit("back_to_back_searches");
+        }
+        let mut nontrivial = false;
+        let mut sample = serde_json::Value::Null;
+        for (k, sstep) in steps.iter().enumerate() {
+            let mut one = self.judge(sc, run, *sstep);
+            v.violations.append(&mut one.violations);
+            for (key, n) in one.reach {
+                *v.reach.entry(key).or_insert(0) += n;
+            }
+            if k == 0 {
+                nontrivial = one.nontrivial;
+                sample = one.sample;
+                v.inconclusive = one.inconclusive;
+            } else if one.nontrivial {
+                v.hit("follow_up_search_judged");
+            }
+        }
+        v.nontrivial = nontrivial;
+        v.sample = sample;
+        v
+    }
+    fn rule(&self) -> &'static str {
+        RULE
+    }
+    fn assumptions(&self) -> Vec<&'static str> {
+        vec!["stubs answer every query with the 8 nodes truly closest to the target among all stubs (with or without themselves), per the property's premise"]
+    }
+    fn required_reach(&self) -> Vec<&'static str> {
+        vec!["iterative_or_endgame_queries", "more_than_20_queries", "network_smaller_than_8", "network_200_plus", "peers_yielded", "stream_dropped_by_caller", "back_to_back_searches", "follow_up_search_judged"]
+    }
+}
+
+impl C02 {
+    /// Judges one search (identified by its step) of the run.
+    fn judge(&self, sc: &Scenario, run: &RunLog, sstep: usize) -> Verdict {
+        let mut v = Verdict::default();
         let real = &sc.reals[0];
         let node = real.addr;
         let own = real.id.unwrap();
-        let sstep = sc.param("search_step") as usize;
-        let announce = sc.param("announce") != 0;
-        let ih = match &sc.steps[sstep].op {
-            Op::Search { ih, .. } | Op::SearchX { ih, .. } => *ih,
+        let (ih, announce) = match sc.steps.get(sstep).map(|s| &s.op) {
+            Some(Op::Search { ih, announce, .. }) | Some(Op::SearchX { ih, announce, .. }) => (*ih, *announce),
             _ => return v,
         };
         let mut t_start = None;
@@ -287,13 +347,6 @@ impl Property for C02 {
         v.sample = json!({"stubs": sc.world.stubs.len(), "bootstrap_contacts": real.nodes.len(), "get_peers_queries": nq, "nodes_answered": answered.len(), "announces": announces.len(), "items": items.len(), "search_ms": t_end - t_start, "lat_max_ms": sc.net.lat_max_ms, "announce": announce});
         v
     }
-    fn rule(&self) -> &'static str {
-        "one real searcher (read-only or serving, announce port set or not) and 1..1000 ideal-Kademlia stubs (ids uniform / clustered around the target / clustered around the searcher), each holding 0..5 globally unique peers; a random non-empty subset as bootstrap contacts; one-way latency <= 450 ms, no message faults; the search is issued after bootstrap; in 1 run of 5 the caller drops the stream early (at once, after 1..1499 ms, after 1..3 items) or starts reading it only 0.5..30 s later, and the announce clauses are judged all the same. non-trivial = the search sent queries and got answers; distinct = distinct order digests"
-    }
-    fn assumptions(&self) -> Vec<&'static str> {
-        vec!["stubs answer every query with the 8 nodes truly closest to the target among all stubs (with or without themselves), per the property's premise"]
-    }
-    fn required_reach(&self) -> Vec<&'static str> {
-        vec!["iterative_or_endgame_queries", "more_than_20_queries", "network_smaller_than_8", "network_200_plus", "peers_yielded", "stream_dropped_by_caller"]
-    }
 }
+
+const RULE: &str = "one real searcher (read-only or serving, announce port set or not) and 1..1000 ideal-Kademlia stubs (ids uniform / clustered around the target / clustered around the searcher), each holding 0..5 globally unique peers; a random non-empty subset as bootstrap contacts; one-way latency <= 450 ms, no message faults; the search is issued after bootstrap; in 1 run of 3 one or two further searches for other info-hashes follow 0 ms .. 31 s after the previous one ended; in 1 run of 5 the caller drops the stream early (at once, after 1..1499 ms, after 1..3 items) or starts reading it only 0.5..30 s later, and the announce clauses are judged all the same. non-trivial = the search sent queries and got answers; distinct = distinct order digests";
